@@ -1,5 +1,6 @@
 mod common;
 mod jura;
+mod server;
 mod uist;
 
 fn usage() -> ! {
@@ -20,12 +21,16 @@ fn main() {
             match c {
                 "uist" => uist::gen(seed, cases, &a[5], &a[6]),
                 "jura" => jura::gen(seed, cases, &a[5], &a[6]),
+                "server-uist" => server::gen(false, seed, cases, &a[5], &a[6]),
+                "server-jura" => server::gen(true, seed, cases, &a[5], &a[6]),
                 _ => usage(),
             }
         }
         (c, "run") if a.len() == 6 => match c {
             "uist" => uist::run(&a[3], &a[4], &a[5]),
             "jura" => jura::run(&a[3], &a[4], &a[5]),
+            "server-uist" => server::run::<rotala::http::uist::AppState>(&a[3], &a[4], &a[5]),
+            "server-jura" => server::run::<rotala::http::jura::AppState>(&a[3], &a[4], &a[5]),
             _ => usage(),
         },
         _ => usage(),
